@@ -43,12 +43,14 @@ def cases(tier):
             yield ("real", cmd, n)
     for n in (1, 2, 3):
         yield ("quiet", n)
+    for n in (1, 2, 3):
+        yield ("dropped", n)
     # (kind, n, lo, hi, naming, mode)
     namings = (0,) if tier == "quick" else (0, 1)
     for n in (1, 2, 3, 4):
         total = 1 << (n * (n - 1))
         step = max(1, total // 512)
-        for nm in namings:
+        for nm in (namings + ((2,) if n <= 3 and 2 not in namings else ())):  # result names that differ in case only, n <= 3
             for lo in range(0, total, step):
                 yield ("graphs", n, lo, min(total, lo + step), nm, "edge")
     # multi-references: one consumer naming the same producer several times (two direct slots, slot + list, twice in a list, ...)
@@ -422,6 +424,48 @@ def _run_quiet(case):
     return {"evals": max(evals, 1), "nontrivial": evals, "judged": evals, "viols": viols[:20], "outcomes": outcomes, "sample": sample, "states": 0, "transitions": 0}
 
 
+def _run_dropped(case):
+    """the commands outlive the Program object: `commands = Program.from_source(text).commands` (or a helper returning them), the program
+    itself is garbage; reading every result must still execute every command exactly once with the reference value.  All DAGs n<=3 x d/l."""
+    import gc
+    from ..vlib import graph as VL
+
+    _, n = case
+    names = G.NAMINGS[0]
+    viols, outcomes = [], {}
+    evals = 0
+    sample = None
+    for es in G.dags(n):
+        for kind in "dl":
+            edges = tuple((c, p, kind) for c, p in es)
+            for mode in ("api", "src"):
+                for order in (range(n), reversed(range(n))):
+                    tag = {"n": n, "edges": edges, "mode": mode}
+                    sample = tag
+                    evals += 1
+                    cmds = _program(n, edges, names, mode).commands
+                    gc.collect()
+                    try:
+                        got = {}
+                        for i in order:
+                            got[i] = cmds[names[i]].result
+                        for i in range(n):
+                            cmds[names[i]].result
+                    except Exception as exc:
+                        viols.append(V("C01:dropped-program:raised:%s" % type(exc).__name__, "reading results after the Program object was dropped raised %r" % (exc,), tag=tag))
+                        outcomes["dropped:raised"] = outcomes.get("dropped:raised", 0) + 1
+                        continue
+                    cnt = _counts(VL, names[:n])
+                    memo = {}
+                    bad = {k: v for k, v in cnt.items() if v != 1}
+                    if bad:
+                        viols.append(V("C01:dropped-program:%s" % ("executed-twice" if max(bad.values()) > 1 else "not-executed"), "execution counts %r" % (bad,), tag=tag))
+                    elif any(got[i] != G.value(n, edges, i, names, memo) for i in range(n)):
+                        viols.append(V("C01:dropped-program:wrong-value", "results differ from the reference", tag=tag))
+                    outcomes["dropped:ok"] = outcomes.get("dropped:ok", 0) + 1
+    return {"evals": max(evals, 1), "nontrivial": evals, "judged": evals, "viols": viols[:20], "outcomes": outcomes, "sample": sample, "states": 0, "transitions": 0}
+
+
 REAL_LIBS = ("mpilot.libraries.eems.basic", "mpilot.libraries.eems.fuzzy", "mc.vlib.const")
 
 
@@ -543,6 +587,8 @@ def run(case):
         return _run_real(case)
     if case[0] == "quiet":
         return _run_quiet(case)
+    if case[0] == "dropped":
+        return _run_dropped(case)
     if case[0] == "graphs":
         return _run_graphs(case)
     return _run_hist(case)
